@@ -596,17 +596,30 @@ def _rename_before_fsync(node):
 
 
 def _decrypt_keeps_going(node):
-    """Canary: Account.decrypt assigns the seed before the private key has been checked."""
+    """Canary: Account.decrypt marks the account decrypted before the password has been checked."""
     import ast
     for i, st in enumerate(node.body):
-        if isinstance(st, ast.Try) and i > 0:
-            assign = ast.parse('self.seed = seed').body[0]
-            node.body.insert(i + 1, assign)
+        if isinstance(st, ast.Try):
+            node.body.insert(i, ast.parse('self.encrypted = False').body[0])
+            return True
+    return False
+
+
+def _save_never_encrypts(node):
+    """Canary: Wallet.save ignores the encrypt-on-disk preference."""
+    import ast
+    for n in ast.walk(node):
+        if isinstance(n, ast.If):
+            n.test = ast.Constant(False)
             return True
     return False
 
 
 CANARIES = [
+    dict(name='decrypt-assigns-before-checking', target='lbry.wallet.account:Account.decrypt', mutate=_decrypt_keeps_going,
+         job=dict(family='secrets', name='lock-unlock-s', fn='lock_unlock', args=(('s',),), loop_bound=200, max_depth=60)),
+    dict(name='save-never-encrypts', target='lbry.wallet.wallet:Wallet.save', mutate=_save_never_encrypts,
+         job=dict(family='secrets', name='lock-unlock-s', fn='lock_unlock', args=(('s',),), loop_bound=200, max_depth=60)),
     dict(name='wallet-written-in-place', target='lbry.wallet.wallet:WalletStorage.write', mutate=_rename_before_fsync,
          job=dict(family='atomic', name='atomic-write-over-existing', fn='atomic_write', args=(True, False), loop_bound=400, max_depth=60)),
 ]
